@@ -773,6 +773,10 @@ impl BytesMutReader for BytesMut {
     }
 }
 
+/// The statement a buffered Bind or Describe refers to, as the client's name stood for it when
+/// the message arrived: (client-given name, rewritten Parse, hash).
+pub type PreparedStatementRef = (String, Arc<Parse>, u64);
+
 pub enum ExtendedProtocolData {
     Parse {
         data: BytesMut,
@@ -780,11 +784,11 @@ pub enum ExtendedProtocolData {
     },
     Bind {
         data: BytesMut,
-        metadata: Option<String>,
+        metadata: Option<PreparedStatementRef>,
     },
     Describe {
         data: BytesMut,
-        metadata: Option<String>,
+        metadata: Option<PreparedStatementRef>,
     },
     Execute {
         data: BytesMut,
@@ -800,11 +804,11 @@ impl ExtendedProtocolData {
         Self::Parse { data, metadata }
     }
 
-    pub fn create_new_bind(data: BytesMut, metadata: Option<String>) -> Self {
+    pub fn create_new_bind(data: BytesMut, metadata: Option<PreparedStatementRef>) -> Self {
         Self::Bind { data, metadata }
     }
 
-    pub fn create_new_describe(data: BytesMut, metadata: Option<String>) -> Self {
+    pub fn create_new_describe(data: BytesMut, metadata: Option<PreparedStatementRef>) -> Self {
         Self::Describe { data, metadata }
     }
 
